@@ -40,6 +40,9 @@ pub enum Act {
     /// the plural adders: two operands in one call
     AddIns(u8, u8),
     AddOuts(u8, u8),
+    /// the plural adders handed a vector of one element (reaches the size bound from one below it)
+    AddIns1(u8),
+    AddOuts1(u8),
     /// replace the (still empty) object by one obtained through another constructor: 0 = parsed from a non-canonical
     /// wire encoding, 1 = JSON round trip, 2 = compact (CBOR) round trip, 3 = from_hex
     Load(u8),
@@ -177,6 +180,8 @@ fn act_kind(a: &Act) -> &'static str {
         Act::Load(_) => "load",
         Act::AddIns(..) => "add_inputs",
         Act::AddOuts(..) => "add_outputs",
+        Act::AddIns1(..) => "add_inputs",
+        Act::AddOuts1(..) => "add_outputs",
     }
 }
 
@@ -239,6 +244,8 @@ fn apply(tx: &mut Transaction, a: &Act) -> Option<String> {
         }
         Act::AddIns(a, b) => tx.add_inputs(vec![operand_in(*a), operand_in(*b)]),
         Act::AddOuts(a, b) => tx.add_outputs(vec![operand_out(*a), operand_out(*b)]),
+        Act::AddIns1(a) => tx.add_inputs(vec![operand_in(*a)]),
+        Act::AddOuts1(a) => tx.add_outputs(vec![operand_out(*a)]),
         Act::Load(k) => match loaded(*k) {
             Some(t) => *tx = t,
             None => return Some(format!("C04/action=load/source={}/kind=constructor-refuses", k)),
@@ -331,7 +338,17 @@ impl Model for TxModel {
                 out.push(Act::AddOut(k));
             }
         }
-        // plural adders (two elements per call), over the first three operand kinds
+        // plural adders: one element per call over every operand, two elements per call over the first three operand kinds
+        if ni < self.max_n {
+            for k in 0..self.operands {
+                out.push(Act::AddIns1(k));
+            }
+        }
+        if no < self.max_n {
+            for k in 0..self.operands {
+                out.push(Act::AddOuts1(k));
+            }
+        }
         if ni + 2 <= self.max_n {
             for a in 0..3u8 {
                 for b in 0..3u8 {
